@@ -24,7 +24,7 @@ use klukai_types::{
     sqlite::SqlitePoolError,
 };
 use klukai_types::{
-    spawn::spawn_counted,
+    spawn::spawn_counted_announce,
     sqlite_pool::{Committable, InterruptibleTransaction},
 };
 use metrics::{counter, histogram};
@@ -131,7 +131,7 @@ where
 
                 let agent = agent.clone();
 
-                spawn_counted(
+                spawn_counted_announce(
                     async move { broadcast_changes(agent, db_version, last_seq, ts).await },
                 );
 
